@@ -491,7 +491,7 @@ Theorem population_size : forall pf t, table_ok t = true ->
   /\ (forall attrs, attrs "instances" = VList 0 -> attrs "size" = VNone -> run pf attrs p = Ok (VInt 0)).
 Proof.
   intros pf t T.
-  assert (HI : In ("Population", "get_size", KGetSize, "") expected) by (vm_compute; tauto).
+  assert (HI : In ("Population", "get_size", KGetSize, "") expected) by (vm_compute; repeat (first [left; reflexivity | right])).
   destruct (table_sound pf t T _ _ _ _ HI) as [p [L S]]. exists p. split; [exact L | exact S].
 Qed.
 
@@ -614,9 +614,10 @@ Theorem population_refuted : exists attrs,
 Proof. exists (fun _ => VStr "../pop/3/cell"). split; vm_compute; reflexivity. Qed.
 
 (* ------------------------------------------------------------------ examples: the hypotheses are satisfiable *)
-Example ex_path : forall attrs, attrs "pre_cell_id" = VStr "../pop_a/17/iaf" ->
-  run py_float attrs (hd SRetNone (canon KCellIdPath "pre_cell_id")) = Ok (VInt 17).
-Proof. intros attrs H. vm_compute. rewrite H. vm_compute. reflexivity. Qed.
+Example ex_path :
+  run py_float (fun _ => VStr "../pop_a/17/iaf") (hd SRetNone (canon KCellIdPath "pre_cell_id")) = Ok (VInt 17)
+  /\ nmlid "pop_a" = true /\ nmlid "iaf" = true /\ dec 17 = "17".
+Proof. repeat split; vm_compute; reflexivity. Qed.
 
 Example ex_delay : run py_float (fun _ => VStr "1.5e-3 s") (hd SRetNone (canon KDelay "delay")) = Ok (VFloat (15000 # 10000)).
 Proof. vm_compute. reflexivity. Qed.
